@@ -66,6 +66,21 @@ def observe(text, name):
     w1, w2 = wcall(), wcall()
     obs.append({"route": "octave_write", "profile": "STANDARD", "status": w1["status"], "pairs": w1["pairs"],
                 "readonly": w1["hash"] == hashlib.sha256(plain.encode()).hexdigest(), "stable": w1 == w2})
+    # a real write, twice, to a path that is kept for the whole content group: later spellings (and the canonical text itself) are
+    # written over a file that already holds their canonical text
+    p2 = os.path.join(c08._schema_dir(), "real%d.oct.md" % os.getpid())
+
+    def wreal():
+        r = run_async(wt.execute(target_path=p2, content=text, schema=name))
+        held = None
+        if r.get("status") == "success" and os.path.exists(p2):
+            with open(p2, encoding="utf-8", newline="") as f:
+                held = f.read()
+        return {"status": str(r.get("validation_status")), "pairs": pairs_of(r.get("validation_errors", []) + r.get("validation_warnings", []), name),
+                "held": held}
+    w3, w4 = wreal(), wreal()
+    obs.append({"route": "octave_write_real", "profile": "STANDARD", "status": w3["status"], "pairs": w3["pairs"],
+                "readonly": w3["held"] in (None, plain), "stable": w3 == w4})
     fp = os.path.join(c08._schema_dir(), "c%d.oct.md" % os.getpid())
     with open(fp, "w", encoding="utf-8") as f:
         f.write(text)
